@@ -185,6 +185,19 @@ pub fn run(suite: &str, a: &[&str]) -> Option<String> {
             let arc = Arc::new(pt(a[0], a[1]), u(a[2]), s, w).into_styled(st);
             styled_out(arc.bounding_box(), arc.pixels(), |t| arc.draw(t).unwrap())
         }
+        // fx_parts <start bits> <sweep bits>: PlaneSector::new for Angles whose I16F16 value has exactly these bit
+        // patterns (only meaningful on the fixed_point build; |bits| < 2^24 so that bits/65536 is an exact f32 and
+        // I16F16::from_num(f32) is exact)
+        "fx_parts" => {
+            let (ab, sb) = (a[0].parse::<i32>().unwrap(), a[1].parse::<i32>().unwrap());
+            let mk = |b: i32| Angle::from_radians(b as f32 / 65536.0);
+            let (s, w) = (mk(ab), mk(sb));
+            if (s.to_radians() * 65536.0) as i32 != ab || (w.to_radians() * 65536.0) as i32 != sb {
+                return Some("INEXACT-ANGLE (not the fixed_point build?)".into());
+            }
+            let (op, l, r) = plane_sector_parts(s, w);
+            format!("{} {} {} {} {}", op, l.x, l.y, r.x, r.y)
+        }
         "sec_offset" => {
             let s = Sector::new(pt(a[0], a[1]), u(a[2]), Angle::zero(), Angle::from_degrees(90.0)).offset(i(a[3]));
             format!("{} {} {}", s.top_left.x, s.top_left.y, s.diameter)
